@@ -212,6 +212,7 @@ func evaluateIsOperator
   option safety
   requires node != nil
   atreturn is-null-tests-nullness-of-the-left-operand: result1 == nil && node.Right != nil && node.Right.Type == TypeField && strings.ToUpper(node.Right.Value) == "NULL" && strings.ToUpper(node.Value) == "IS" ==> result0 == boxof(leftIsNull, bool)
+  atreturn a-null-test-is-answered-whatever-the-case-of-the-keyword: node.Right != nil && node.Right.Type == TypeField && strings.ToUpper(node.Right.Value) == "NULL" && (strings.ToUpper(node.Value) == "IS" || strings.ToUpper(node.Value) == "IS NOT") ==> result1 == nil
   atreturn is-not-null-is-its-negation: result1 == nil && node.Right != nil && node.Right.Type == TypeField && strings.ToUpper(node.Right.Value) == "NULL" && strings.ToUpper(node.Value) == "IS NOT" ==> result0 == boxof(!leftIsNull, bool)
 @*/
 
